@@ -76,4 +76,17 @@ CHECKS.update({
   "note": "The peer's active_connection_id_limit is set on the genuine peer object before the handshake (not configurable). IDs never adopted may be retired or ignored.",
  },
 })
+_TK = "After a real handshake the genuine peer is frozen and the harness speaks in its place with the peer's keys through an independent QUIC implementation (vlib/refquic.py), decrypting everything the SUT answers. "
+CHECKS.update({
+ "C06": {
+  "technique": "model-based testing with Hypothesis: sender histories against a key-holding peer, invariant over the decrypted wire history vs limits delivered",
+  "text": _TK + "The genuine peer advertised small generated limits (max_data / max_stream_data / stream counts). Hypothesis interleaves SUT application writes around the limits, FINs and resets with peer operations (selective acknowledgements and losses, MAX_DATA / MAX_STREAM_DATA / MAX_STREAMS with increasing, equal and decreasing values, STOP_SENDING, timers). At every emitted packet the highest offset per stream, the sum of highest offsets and the streams opened must be within the limits delivered to the SUT by then; after a fair phase (limits raised just enough, everything acknowledged) every written byte and FIN must have appeared on the wire.",
+  "note": "Streams opened in id order; 0-RTT with remembered limits is not generated. Stream-count limits of the genuine peer are set on the object before the handshake.",
+ },
+ "C07": {
+  "technique": "model-based testing with Hypothesis: receive-limit histories from a key-holding peer against a reference model of advertised credit, both directions",
+  "text": _TK + "The SUT advertises small limits; its transport parameters and every MAX_* frame are read from the decrypted wire to maintain the advertised credit. STREAM / RESET_STREAM frames are sent with ends at limit-1, limit, limit+1, 2*limit, 2^62-1 relative to the current stream or connection credit, on all stream kinds and around the stream-count limit, with duplicates; a frame that breaks a rule must close with one of the matching codes (0x3 / 0x4 / 0x6), and a peer that breaks none is never accused of them. After every step reassembly buffers, CRYPTO buffering, queued path challenges, pending retirements and peer CIDs held are measured against the advertised / documented bounds.",
+  "note": "FIN/RESET below data already received and frames on streams already finished carry no obligation. Buffer sizes are attribute reads.",
+ },
+})
 PENDING = {}
